@@ -1,13 +1,15 @@
 /-
 Line-protocol driver for the C03 model (`lake env lean --run Ampverif/Drivers/C03.lean`).
 
-  variant <perFlippedNode 0|1> <guardOnFlipped 0|1>
+  variant <perFlippedNode 0|1> <guardOnFlipped 0|1> [<perNode 0|1>]   (perNode defaults to 1)
   flags <parentHel 0|1> <childHel 0|1> <lsArrow 0|1>
   chain <node>;<node>;…      node = eta,ls,pname,plabel,phel2,aname,alabel,ahel2,bname,blabel,bhel2
                               eta ∈ {-,1,-1}; ls ∈ {-, 2L:2S}; names/labels hex (UTF-8)
-  end                        → mapping line, one line per chain, wf line, `done`
+  end                        → mapping line, one line per chain, wf line, `repeated` line (number of
+                               flipped nodes whose suffix already occurred at an earlier flipped node of
+                               the same chain, summed over the chains), `done`
 -/
-import Ampverif.Model.C03Parity
+import Ampverif.Model.C03ParityRule
 
 open Ampverif.Model.C03
 
@@ -45,7 +47,7 @@ def parseNode (s : String) : Option Node :=
 def parseChain (s : String) : Chain := (s.splitOn ";").filterMap parseNode
 
 structure State where
-  v : Variant := ⟨true, true⟩
+  v : Rule := ⟨⟨true, true⟩, true⟩
   f : Flags := ⟨false, true, false⟩
   chains : List Chain := []
 
@@ -58,16 +60,18 @@ def flush (st : State) : List String :=
   let m := registerAll st.f ts
   let mline := "mapping" ++ String.join (m.map fun (k, v) => " " ++ tohex k ++ "=" ++ tohex v)
   let clines := ts.map fun c =>
-    "chain " ++ tohex (coefficientName st.f m c) ++ " " ++ showOpt (prefactor st.v st.f m c)
+    "chain " ++ tohex (coefficientName st.f m c) ++ " " ++ showOpt (prefactorR st.v st.f m c)
   let wf := partnerInjective st.f ts.flatten
-  [mline] ++ clines ++ ["wf " ++ (if wf then "1" else "0"), "done"]
+  let rep := (ts.map fun c => repeatedFlipped st.f m c []).foldl (· + ·) 0
+  [mline] ++ clines ++ ["wf " ++ (if wf then "1" else "0"), "repeated " ++ toString rep, "done"]
 
 partial def loop (h : IO.FS.Stream) (out : IO.FS.Stream) (st : State) : IO Unit := do
   let line ← h.getLine
   if line.isEmpty then return
   let line := String.ofList (line.toList.reverse.dropWhile Char.isWhitespace).reverse
   match line.splitOn " " with
-  | ["variant", a, b] => loop h out { st with v := ⟨a == "1", b == "1"⟩ }
+  | ["variant", a, b] => loop h out { st with v := ⟨⟨a == "1", b == "1"⟩, true⟩ }
+  | ["variant", a, b, c] => loop h out { st with v := ⟨⟨a == "1", b == "1"⟩, c == "1"⟩ }
   | ["flags", a, b, c] => loop h out { st with f := ⟨a == "1", b == "1", c == "1"⟩, chains := [] }
   | ["chain", c] => loop h out { st with chains := parseChain c :: st.chains }
   | ["end"] =>
